@@ -85,6 +85,8 @@ def make_case(chk, rng, i):
     multi_eof = (i % 4 == 2)
     if multi_eof:
         p["scs"] = rng.choice([1, 2])
+    if i % 4 == 1 and p["scs"] == 0:
+        p["scs"] = 1            # (the two-warnings rule below needs a start condition)
     p["bol"] = 20
     p["trail"] = 10 if i % 4 != 3 else 35
     p["ci"] = (i % 6 == 5)
@@ -130,6 +132,13 @@ def make_case(chk, rng, i):
                         {"scs": None, "act": [("term",)]}]
         if nsc > 2 and rng.chance(50):
             case["eofs"].insert(0, {"scs": [0], "act": [("term",)]})
+    if len(case["scs"]) > 1 and i % 4 == 1:
+        # a rule that draws another warning on its own line (its start condition is listed
+        # twice) and can never be matched as well: both warnings are due
+        sc = rng.rint(1, len(case["scs"]) - 1)
+        word = pat.lit(bytes(rng.choice(b"zqj") for _ in range(3)))
+        rules.append({"scs": [sc], "bol": False, "pat": word, "trail": None, "act": []})
+        rules.append({"scs": [sc, sc], "bol": False, "pat": word, "trail": None, "act": []})
     nodefault = (i % 3 == 0)
     if nodefault:
         case["opts"]["nodefault"] = True
